@@ -601,6 +601,20 @@ func headValueRule(p *Prog, r *Report, rule string) {
 		if ph, isPhi := unwrap(v).(*ssa.Phi); isPhi {
 			for k, e := range ph.Edges {
 				if sc, isS := strConst(e); isS && sc == "" {
+					// only edges from which the store is feasibly reached (an error path of an inlined helper also
+					// assigns "" to the result temporary, then leaves through the error return)
+					reach := ph.Block() == st.Block()
+					if !reach {
+						forwardFromEdge(ph.Block().Preds[k], ph.Block(), func(x *ssa.BasicBlock) bool {
+							if x == st.Block() {
+								reach = true
+							}
+							return !reach
+						})
+					}
+					if !reach {
+						continue
+					}
 					n0++
 					if g, _ := p.allPathsEdge(ph.Block().Preds[k], ph.Block(), []Pred{qNotIn, qLastEmpty}, func(m uint32) bool { return m != 0 }); !g {
 						okE = false
